@@ -427,3 +427,84 @@ Proof.
   exists cnl. split; [exact C|]. intro NDc. rewrite <- (map_pair_nil cnl) in NDc.
   destruct (H NDc) as [cs [F E]]. exists cs. split; [exact F|]. rewrite E. apply map_pair_nil.
 Qed.
+
+(** * the distinctness hypotheses are necessary: a grid never holds two blocks of one name or two
+    connections of one key *)
+Lemma NoDup_app_single {A} (l : list A) a : NoDup l -> ~ In a l -> NoDup (l ++ [a]).
+Proof.
+  intros ND Hn. apply (Permutation_NoDup (l := a :: l)); [apply Permutation_cons_append|].
+  constructor; assumption.
+Qed.
+Lemma add_block_names_nodup bl b : NoDup (map bname bl) -> NoDup (map bname (add_block bl b)).
+Proof.
+  intro ND. unfold add_block. destruct (existsb _ bl) eqn:E.
+  - assert (M : map bname (map (fun x => if str_eqb (bname x) (bname b) then b else x) bl) = map bname bl).
+    { rewrite map_map. apply map_ext. intro x. destruct (str_eqb (bname x) (bname b)) eqn:S; [|reflexivity].
+      apply str_eqb_eq in S. symmetry. exact S. }
+    rewrite M. exact ND.
+  - rewrite map_app. cbn [map]. apply NoDup_app_single; [exact ND|].
+    intro Hin. apply in_map_iff in Hin as [x [Hx Hin]].
+    assert (existsb (fun x0 => str_eqb (bname x0) (bname b)) bl = true).
+    { apply existsb_exists. exists x. split; [exact Hin|]. rewrite Hx. apply str_eqb_refl. }
+    congruence.
+Qed.
+Lemma fold_add_block_names_nodup calls : forall acc,
+  NoDup (map bname acc) -> NoDup (map bname (fold_left add_block calls acc)).
+Proof.
+  induction calls as [|b calls IH]; intros acc ND; cbn [fold_left]; [exact ND|].
+  apply IH. apply add_block_names_nodup. exact ND.
+Qed.
+Lemma fromgeo_blocks_nodup g bm bl : fromgeo_blocks g bm = Ok bl -> NoDup (map bname bl).
+Proof.
+  unfold fromgeo_blocks. destruct (fromgeo_block_calls g bm) as [calls|e]; [|discriminate]. cbn [bind].
+  intro H. inversion H; subst. apply fold_add_block_names_nodup. constructor.
+Qed.
+
+Lemma add_connection_keys_nodup cl k : NoDup (map ckey cl) -> NoDup (map ckey (add_connection cl k)).
+Proof.
+  intro ND. unfold add_connection. destruct (existsb _ cl) eqn:E.
+  - assert (M : map ckey (map (fun x => if same_key x k then k else x) cl) = map ckey cl).
+    { rewrite map_map. apply map_ext. intro x. destruct (same_key x k) eqn:S; [|reflexivity].
+      unfold same_key in S. apply andb_prop in S as [S1 S2]. apply str_eqb_eq in S1. apply str_eqb_eq in S2.
+      unfold ckey. congruence. }
+    rewrite M. exact ND.
+  - rewrite map_app. cbn [map]. apply NoDup_app_single; [exact ND|].
+    intro Hin. apply in_map_iff in Hin as [x [Hx Hin]].
+    assert (existsb (fun x0 => same_key x0 k) cl = true).
+    { apply existsb_exists. exists x. split; [exact Hin|]. unfold ckey in Hx. inversion Hx as [[H1 H2]].
+      unfold same_key. rewrite H1, H2, !str_eqb_refl. reflexivity. }
+    congruence.
+Qed.
+Lemma fold_add_connection_keys_nodup calls : forall acc,
+  NoDup (map ckey acc) -> NoDup (map ckey (fold_left add_connection calls acc)).
+Proof.
+  induction calls as [|b calls IH]; intros acc ND; cbn [fold_left]; [exact ND|].
+  apply IH. apply add_connection_keys_nodup. exact ND.
+Qed.
+Lemma fromgeo_conns_nodup g bm cs : fromgeo_conns g bm = Ok cs -> NoDup (map ckey cs).
+Proof.
+  unfold fromgeo_conns. destruct (fromgeo_blocks g bm) as [bl|e]; [|discriminate]. cbn [bind].
+  destruct (fromgeo_conn_calls g bm bl) as [calls|e]; [|discriminate]. cbn [bind].
+  intro H. inversion H; subst. apply fold_add_connection_keys_nodup. constructor.
+Qed.
+
+(** the two headline statements as equivalences *)
+Theorem fromgeo_blocks_names_iff g bm names :
+  wf g -> block_name_list g = Ok names ->
+  (NoDup (map (apply_map bm) names) <->
+   exists bl, fromgeo_blocks g bm = Ok bl /\ map bname bl = map (apply_map bm) names).
+Proof.
+  intros W Hn. split.
+  - apply fromgeo_blocks_names; assumption.
+  - intros [bl [F E]]. rewrite <- E. eapply fromgeo_blocks_nodup. exact F.
+Qed.
+Theorem fromgeo_conns_names_iff g bm names cnl :
+  wf g -> block_name_list g = Ok names -> NoDup (map (apply_map bm) names) ->
+  block_connection_name_list g = Ok cnl ->
+  (NoDup (map (map_pair bm) cnl) <->
+   exists cs, fromgeo_conns g bm = Ok cs /\ map ckey cs = map (map_pair bm) cnl).
+Proof.
+  intros W Hn ND Hc. destruct (fromgeo_conns_names g bm names W Hn ND) as [cnl' [C H]].
+  rewrite Hc in C. inversion C; subst cnl'. split; [exact H|].
+  intros [cs [F E]]. rewrite <- E. eapply fromgeo_conns_nodup. exact F.
+Qed.
